@@ -134,6 +134,17 @@ def main(argv=None):
                         broken.append(dict(kind='translator', what=f"emitted Lean differs from IR: {mm}"))
                 except Exception as e:
                     broken.append(dict(kind='translator', what=f"driver failed: {str(e)[:300]}"))
+            # ---- 4b. hand-model correspondence (tie T2): Lean model vs the real code on the same requests ----------
+            if hasattr(mod, 'correspondence') and not args.no_lean:
+                try:
+                    c = mod.correspondence(args.tier, seed)
+                    cov['model_correspondence'] = dict(cases=c['cases'], kinds=c['kinds'], mismatches=len(c['mismatches']))
+                    for mm in c['mismatches'][:5]:
+                        broken.append(dict(kind='correspondence', what=f"Lean model and implementation disagree: {json.dumps(mm, default=str)[:400]}"))
+                except subprocess.TimeoutExpired:
+                    raise
+                except Exception as e:
+                    broken.append(dict(kind='correspondence', what=f"correspondence run failed: {str(e)[-400:]}"))
         if fl:
             b = transval.check_tracer(fl, seed, n_per_func=15 if args.tier == 'quick' else 60)
             cov['translator'].update(tracer_cases=b['cases'], tracer_ok=b['ok'], tracer_boundary=b['boundary'],
